@@ -303,20 +303,13 @@ def run_case(case, ctx):
                 continue
             judge("cds.translate", ("translate", tname, trunc), res, exc, lambda r: str(r) == "".join(wprot), got=None if exc else str(res),
                   want="".join(wprot) if wprot is not None else None)
-            if trunc and wprot is not None:
-                # the flag as the equal int 1, handed over positionally: the same truncated protein
-                c3b = _mk(blocks, strand, frames, genome)
-                res, exc = ctx.call(c3b.translate, 1, TranslationTable[tname])
-                judge("cds.translate", ("translate-flag-as-int-1", tname), res, exc, lambda r: str(r) == "".join(wprot), got=None if exc else str(res),
-                      want="".join(wprot))
     # one object asked with several tables in turn: every answer is the table's own (a start-codon substitution made for one table
     # must not leak into the answer for another)
     if strict_ok and mc:
         for order in (("PROKARYOTE", "DEFAULT"), ("STANDARD", "DEFAULT", "PROKARYOTE"), ("DEFAULT", "STANDARD", "DEFAULT")):
             shared = _mk(blocks, strand, frames, genome)
             for step, tname in enumerate(order):
-                # (the flags also as the equal ints 0 / 1: `False == 0`, and nothing documents an identity test on them)
-                res, exc = ctx.call(shared.translate, 0 if step % 2 else False, TranslationTable[tname], 1 if step % 2 else True)
+                res, exc = ctx.call(shared.translate, False, TranslationTable[tname], True)     # flags positionally, in the documented order
                 wprot = FM.translate(mseq, tname, strict=True)
                 judge("cds.translate", ("same-object-table-sequence", "-".join(order), step), res, exc, lambda r: str(r) == "".join(wprot),
                       got=None if exc else str(res), want="".join(wprot))
